@@ -217,6 +217,9 @@ var constructSnippets = []string{
 	"/* leading block */\nstruct C1 { /* inline */ int32 a; // trailing\n}\n",
 	"union U { 1 -> struct UA { int32 a; } 2 -> message UB { 1 -> string s; } }\n",
 	"struct Empty {}\nmessage EmptyM {}\nunion EmptyU {}\n",
+	// literals the parser only WARNS about
+	"const int16 kTooBig = 33333333333333333333333333333333333333333333333333333333333333333;\nstruct AfterWarning { int32 a; }\n",
+	"const float32 kHuge = 1.7976931348623159e308;\nconst uint16 kAlso = 2222222222222222222222222222222222222222222222222222222222222222;\nmessage AfterWarnings { 1 -> string s; }\n",
 }
 
 const oldOutput = "// previously generated; must survive a failed run\npackage old\n"
@@ -411,6 +414,10 @@ func runC19(c *Ctx) *Replay {
 	switch class {
 	case "import":
 		sc.Files[textDir+"impx.bop"] = impText
+		if r.Chance(1, 3) {
+			// the imported file holds a literal the parser only warns about
+			sc.Files[textDir+"impx.bop"] = impText + "const int16 kImpTooBig = 33333333333333333333333333333333333333333333333333333333333333333;\n"
+		}
 	case "import-paths":
 		sc.Files[textDir+"impx.bop"] = impText
 		sc.Files[filepath.Clean(filepath.Join(textDir, "..", "impx.bop"))] = impTextY
